@@ -108,17 +108,10 @@ pub fn print_js<'a>(
     let final_source_map = chain_source_maps(source_map, &original_source_map.source, config)
         .unwrap_or_else(|| String::from(source_map));
 
-    let final_code = if config.print_comments {
-        match &original_source_map.source_map_comment {
-            Some(comment) => {
-                debug!("Replacing original sourceMappingUrl comment: {comment}");
-                code.replace(comment.as_str(), "").into()
-            }
-            _ => code.into(),
-        }
-    } else {
-        code.into()
-    };
+    // the superseded sourceMappingURL comment has already been removed from the comments that are
+    // printed (extract_source_map): the code is never searched for its text, which could also occur
+    // inside a string, template or regular expression literal
+    let final_code: Cow<'a, str> = code.into();
 
     if final_source_map.is_empty() {
         debug!("No sourcemap available");
@@ -333,6 +326,16 @@ fn extract_source_map<R: Read>(
                     });
             }
         }
+    }
+
+    if source_map_comment.is_some() {
+        // the original reference is superseded by the embedded one: drop the comment itself, so
+        // that it is not printed (no need to search the printed text for it afterwards)
+        comments.trailing.iter_mut().for_each(|mut trailing| {
+            trailing
+                .value_mut()
+                .retain(|comment| !comment.text.trim().starts_with(SOURCE_MAP_URL))
+        });
     }
 
     OriginalSourceMap {
